@@ -3,6 +3,14 @@
 import json, subprocess, os
 
 CHECKS = {
+ "C11": ("rtprops", "model-based property testing (proptest): generated request/operation histories against a map-based session model, real cookie pipeline, store inspected after every request",
+         "Random histories (1-7 requests x 0-8 ops, 5-dimensional configuration, cookie replay choices, in-memory and SQLite stores) are run through the real extract->Session->finalize_session->inject pipeline; every op result, emitted cookie and the whole store are compared with a reference model after each step. Shallow and mid-depth state-machine defects (4 genuine ones found and fixed, 2 seeded ones) are found within tens of cases; cannot show absence.",
+         "Trusted: the reference model in harness/rtprops/src/sess.rs. Creation of *empty* records is not judged; inserts between delete() and sync() are not executed; store is fault-free; TTLs never expire during a case.",
+         "DESIGN.md §4 C11"),
+ "C12": ("rtprops", "property-based testing (proptest): generated processor/cookie/session configurations x histories, independent rule evaluation + independent Set-Cookie parse + Debug scan",
+         "Random (crypto rules x cookie config x session config x 1-3 request histories) cases through the real finalize_session + inject_response_cookies; the oracle re-derives sign/encrypt coverage from the rule assignment, checks that a cookie is attached only when adequately protected and that a failing request leaves no session cookie behind, compares all attributes (object and wire level) and scans Debug output for the id. Both seeded defects found in <=3 cases.",
+         "Trusted: harness-side rule evaluation and Set-Cookie parser; each cookie name appears in at most one crypto rule.",
+         "DESIGN.md §4 C12"),
  # id: (engine, technique, level text, level note, design_ref)
  "C17": ("rtprops", "property-based testing (proptest): algebraic laws + independent structural model + render/parse round trip over generated type pairs/triples",
          "Random search over pairs/triples of types (depth<=4) built as template/instantiation, renamed copies, single-point mutations and independent pairs; every law of the statement is an executable oracle. Finds shallow and mid-depth law violations with high probability (both seeded defects are found in <10 cases); cannot show absence.",
